@@ -583,7 +583,7 @@ class TabWorld:
         self._check_merge(runs, got, desc, what, sig, cols=want_cols)
         return got
 
-    def op_unsorted_fault(self, group, run_index, i, j, reader_chunk):
+    def op_unsorted_fault(self, group, run_index, i, j, reader_chunk, tiny=False):
         """S11: swap two rows with unequal scores inside one stored run; the table merger must reject it."""
         from mokapot.streaming import MergedTabularDataReader
         from mokapot.tabular_data import TabularDataReader
@@ -596,11 +596,17 @@ class TabWorld:
         if n < 2:
             return
         i, j = i % n, j % n
-        if t["rows"][i][0] == t["rows"][j][0]:
-            return
-        rows = [list(r) for r in t["rows"]]
-        rows[i], rows[j] = rows[j], rows[i]
         desc = t["sorted"] == "desc"
+        rows = [list(r) for r in t["rows"]]
+        if tiny:
+            # a violation in the sixth decimal: row i lies on the wrong side of row i-1 by 1e-6
+            i = max(1, i)
+            rows[i][0] = float(f"{rows[i - 1][0] + (1e-6 if desc else -1e-6):.6f}")
+            self.stats["tiny_sortedness_faults"] = self.stats.get("tiny_sortedness_faults", 0) + 1
+        else:
+            if t["rows"][i][0] == t["rows"][j][0]:
+                return
+            rows[i], rows[j] = rows[j], rows[i]
         sc = [r[0] for r in rows]
         still_sorted = all((a >= b) if desc else (a <= b) for a, b in zip(sc, sc[1:]))
         if still_sorted:
@@ -629,7 +635,8 @@ class TabWorld:
             except OSError:
                 pass
         raise OracleViolation("unsorted_input_accepted", f"table merger accepted a run that is not sorted as declared "
-                              f"(rows {i} and {j} of run {run_index % len(runs)} swapped) and returned {len(out)} rows",
+                              f"({'row ' + str(i) + ' off by 1e-6' if tiny else 'rows ' + str(i) + ' and ' + str(j) + ' swapped'} in run "
+                              f"{run_index % len(runs)}) and returned {len(out)} rows",
                               impl="table_merger", fmt=t["fmt"])
 
 
